@@ -255,9 +255,9 @@ pub fn prove_via(r: &mut RLN, m: &TreeModel, c: &Case) -> Result<Vec<u8>, String
     let want = expected_values(&c.req, m);
     match c.entry {
         Entry::FromTree => {
-            let mut out = vec![];
-            match guarded(|| r.generate_rln_proof(Cursor::new(req_bytes), &mut out).map_err(|e| e.to_string())) {
-                Ok(Ok(())) => Ok(out),
+            let mut sink = crate::gens::Sink::new();
+            match guarded(|| r.generate_rln_proof(crate::gens::rd(&req_bytes), &mut sink).map_err(|e| e.to_string())) {
+                Ok(Ok(())) => Ok(sink.data),
                 Ok(Err(e)) => Err(format!("generate_rln_proof returned an error for a valid request: {e}")),
                 Err(pn) => Err(format!("generate_rln_proof panicked: {}", pn.0)),
             }
@@ -267,9 +267,9 @@ pub fn prove_via(r: &mut RLN, m: &TreeModel, c: &Case) -> Result<Vec<u8>, String
                 Ok(Ok(b)) => b,
                 other => return Err(format!("get_serialized_rln_witness failed for a valid request: {other:?}")),
             };
-            let mut out = vec![];
-            match guarded(|| r.generate_rln_proof_with_witness(Cursor::new(wb), &mut out).map_err(|e| e.to_string())) {
-                Ok(Ok(())) => Ok(out),
+            let mut sink = crate::gens::Sink::new();
+            match guarded(|| r.generate_rln_proof_with_witness(crate::gens::rd(&wb), &mut sink).map_err(|e| e.to_string())) {
+                Ok(Ok(())) => Ok(sink.data),
                 Ok(Err(e)) => Err(format!("generate_rln_proof_with_witness returned an error for a valid witness: {e}")),
                 Err(pn) => Err(format!("generate_rln_proof_with_witness panicked: {}", pn.0)),
             }
@@ -278,8 +278,11 @@ pub fn prove_via(r: &mut RLN, m: &TreeModel, c: &Case) -> Result<Vec<u8>, String
             // witness assembled independently from the model tree, proof values from the formulas
             let (sibs, bits) = m.proof(c.req.index).unwrap();
             let w = Wit { s: c.req.s, limit: c.req.limit, mid: c.req.mid, path: sibs.iter().map(|f| Fx(*f)).collect(), bits, x: fxb(&want.x), e: c.req.e };
-            let mut proof = vec![];
-            match guarded(|| r.prove(Cursor::new(w.encode()), &mut proof).map_err(|e| e.to_string())) {
+            let mut sink = crate::gens::Sink::new();
+            let enc = w.encode();
+            let res = guarded(|| r.prove(crate::gens::rd(&enc), &mut sink).map_err(|e| e.to_string()));
+            let mut proof = sink.data;
+            match res {
                 Ok(Ok(())) => {}
                 Ok(Err(e)) => return Err(format!("prove returned an error for a valid witness: {e}")),
                 Err(pn) => return Err(format!("prove panicked: {}", pn.0)),
@@ -442,6 +445,10 @@ impl Property for C01 {
     }
     fn check(&self, _ctx: &Ctx, c: &Case) -> Outcome {
         let mut o = Outcome::new();
+        // requests are read and messages written through readers / writers that move 1, 7 or 33 bytes
+        // per call, or everything at once (chosen from the case content)
+        crate::gens::set_io_style((case_hash(c) % 4) as u8);
+        o.label(format!("io-style/{}", crate::gens::io_style()));
         o.label(format!("entry/{:?}", c.entry));
         o.label(format!("place/{:?}", c.place));
         if !c.pre.is_empty() || !c.post.is_empty() {
